@@ -176,6 +176,8 @@ func (s *Store[H]) deleteParallel(ctx context.Context, from, to uint64) (uint64,
 			if errors.Is(last.err, datastore.ErrNotFound) {
 				last.missing++
 				log.Debugw("attempt to delete header that's not found", "height", height)
+				// a missing header is not a failure, don't report it as the worker's result
+				last.err = nil
 			} else if last.err != nil {
 				break
 			}
